@@ -163,11 +163,11 @@ def plan(ctx):
     for kind in ("dict", "set"):
         for route in ("go", "star"):
             if q:
-                n = "7" if (kind, route) in (("dict", "go"), ("set", "star")) else "3"
-                jobs.append(("rand %s/%s" % (kind, route), ["random", "-kind", kind, "-route", route, "-n", n, "-ops", "1200", "-seed", seed], 300))
+                n = "9" if kind == "set" else "5"   # 9 hash distributions; the set runs carry the subset / comparison queries
+                jobs.append(("rand %s/%s" % (kind, route), ["random", "-kind", kind, "-route", route, "-n", n, "-ops", "1500", "-seed", seed], 300))
             else:
-                jobs.append(("rand %s/%s" % (kind, route), ["random", "-kind", kind, "-route", route, "-n", "14", "-ops", "10000", "-seed", seed], 840))
-    jobs.append(("bigsets", ["bigsets", "-n", "36" if q else "900", "-seed", seed], 600))
+                jobs.append(("rand %s/%s" % (kind, route), ["random", "-kind", kind, "-route", route, "-n", "18", "-ops", "10000", "-seed", seed], 840))
+    jobs.append(("bigsets", ["bigsets", "-n", "60" if q else "900", "-seed", seed], 600))
     jobs.append(("programs", ["programs", "-n", "200" if q else "4000", "-maxops", "30", "-seed", seed], 600))
     jobs.append(("sample", ["sample", "-n", "60" if q else "1200", "-maxops", "28" if q else "40", "-seed", seed], 300))
     return jobs
